@@ -15,8 +15,8 @@ def run_native_watched(prop, lines, out, flavour="native", env_extra=None, timeo
     exe = bins["pooldrv"]
     # fault-injection histories (thread creation made to fail) each get a fresh process: a process that has already seen
     # worker threads come and go keeps their stacks cached, and creating a thread then needs no new mapping
-    special = [l for l in lines if "spawnfail=" in l]
-    shards = runner.shard([l for l in lines if "spawnfail=" not in l], NCPU) + [[l] for l in special]
+    special = [l for l in lines if "spawnfail=" in l or "wbomb=" in l]
+    shards = runner.shard([l for l in lines if l not in special], NCPU) + [[l] for l in special]
     env = dict(os.environ)
     env.update(env_extra or {})
     tmpdir = os.path.join(build.BUILD, "tmp")
@@ -50,6 +50,12 @@ def run_native_watched(prop, lines, out, flavour="native", env_extra=None, timeo
                 out.inconclusive_shard("history deadlocked (C07's verdict): %s" % culprit)
         elif res.verdict == "watchdog":
             out.inconclusive_shard("wall-clock watchdog without quiescence after %d of %d histories" % (len(complete), len(ls)))
+        elif res.returncode == -6 and len(ls) == 1 and "wbomb=" in ls[0] and not complete and "WBOMB b=" in res.stderr:
+            # the pool could not get rid of a worker's panic payload and ended the process: divan's documented choice (an abort
+            # guard on every worker), and the only outcome other than carrying on with a whole pool
+            agg["aborted_by_design"] = agg.get("aborted_by_design", 0) + 1
+            agg["histories"] += 1
+            out.evaluations += 1
         elif res.returncode not in (0, 3):
             text = res.stderr
             if "Sanitizer" in text:
